@@ -16,11 +16,31 @@ PID = 'C11'
 LEAN_TARGETS = ['CfVerif.Props.C11']
 PROPS_MODULES = ['CfVerif.Props.C11']
 DRIVER = 'Driver/C11.lean'
-REQUIRED_THEOREMS = []
-TRUSTED = []
-ASSUMPTIONS = []
-RULE = ''
-
+REQUIRED_THEOREMS = ['CfVerif.C11.' + t for t in (
+    'fetch_reads_only_matching_name', 'used_only_on_crc_match', 'decoder_encoder_id', 'elem_toVal_injective', 'load_eq_store',
+    'load_never_wrong', 'fetch_after_insert_eq_store', 'downloaded_table_is_dict', 'json_proper_prefix_rejected',
+    'truncation_is_miss_partial', 'truncated_file_is_miss', 'missing_file_is_miss', 'unparsable_file_is_miss',
+    'crash_then_restart_is_miss', 'miss_starts_download', 'miss_download_completes', 'hit_uses_cache', 'ro_never_written',
+    'init_never_writes_files', 'collision_counterexample', 'gen_keys', 'gen_decoder', 'gen_encoder', 'gen_fetch_lookup',
+    'gen_fetch_load', 'gen_insert', 'gen_init', 'gen_fetcher', 'gen_crc_is_u32', 'gen_type_strings_valid')]
+TRUSTED = ['harness/corr/c11.py extractor + correspondence',
+           "CPython json (C scanner/encoder) behaves as Model/C11 `loads`/`printToc` on the texts explored (validated on every run, not proved)",
+           "text files are UTF-8 and '\\n' is written as one byte (POSIX); os/glob list a directory as the model's FS does",
+           'the element classes are plain attribute holders (TocCache only reads/sets the seven attributes)']
+ASSUMPTIONS = ['strings are sequences of Unicode scalar values (device names are ISO-8859-1 decoded, so always)',
+               'tables are dicts of dicts: duplicate-free group names and variable names (Toc.add_element guarantees it; proved)',
+               'checksums are 32-bit (unpacked with struct code I; obligation gen_crc_is_u32)',
+               "eval() of a '__class__' string other than the two element class names, str() of floats/lists/dicts, truthiness of a "
+               'top-level float, ints beyond 4300 digits, directories named *.json, glob metacharacters or a trailing slash in the '
+               'cache directory names, and recursion limits are outside the model (driver answers `unmodelled` where it can tell)',
+               'torn writes other than truncation (reordered blocks) are outside the model']
+RULE = ('cases = (1) JSON texts: fixed dialect probes + grammar-generated documents (escapes, surrogate pairs, numbers, constants, '
+        'duplicate keys, class-tagged objects with missing/odd members) + byte-level mutations of real cache files + raw byte strings '
+        '(UTF-8 edge cases), each through the real fetch path and Json.loads; (2) generated tables (identifier, Latin-1, nasty, astral '
+        'and `__class__` names; log/param/mixed; boundary idents) through real insert/fetch vs printToc/loads incl. EVERY truncation '
+        'offset of every written file; (3) op scripts on temp directory trees: ro/rw/both/none/same/missing/unmakeable, stored, foreign, '
+        'hidden and suffix-colliding names, failing open, cut writes, vanishing files, restarts; (4) TocFetcher with a fake Crazyflie: '
+        'cold, warm, truncated, garbage, other-class file; non-trivial = distinct (kind, text/table/script step)')
 SRC = 'cflib/crazyflie/toccache.py'
 
 
